@@ -54,3 +54,85 @@ def stepV1 (a : Acc) : Op → Acc
   | .remove tx => removeV1 key a tx
 
 end Tmv.Mempool.Keyed
+
+/-! ### The whole key-dependent logic of the pools with an explicit key function
+
+`KPool` = the accounting core + the LRU cache (which stores KEYS) + the senders recorded per key.
+Everything the pools decide WITHOUT looking at keys (capacity, application verdict, post-check,
+priorities, eviction choice, TTL) is an arbitrary input here (`adm`, `rm`, which entry is dropped),
+so every behaviour of mempool/v0 and mempool/v1 that depends on `TxKey` is a behaviour of `KPool`. -/
+namespace Tmv.Mempool.Keyed
+open Tmv Tmv.Mempool
+
+structure KPool where
+  acc : Acc
+  cache : Cache                       -- keys
+  senders : List (Bytes × List Nat)   -- key ↦ peers (lives on the entry the index points to)
+deriving Repr
+
+def kempty (cacheSize : Int) : KPool := { acc := empty, cache := Cache.new cacheSize, senders := [] }
+
+variable (key : Bytes → Bytes)
+
+def sendersOf (p : KPool) (k : Bytes) : List Nat :=
+  match p.senders.find? (fun e => e.1 = k) with
+  | some e => e.2
+  | none => []
+
+/-- record `peer` on the entry the index holds for key `k` (no entry: nothing) -/
+def recordK (p : KPool) (k : Bytes) (peer : Nat) : KPool :=
+  if k ∈ p.acc.index then
+    { p with senders := (k, if peer ∈ sendersOf p k then sendersOf p k else sendersOf p k ++ [peer]) ::
+        p.senders.filter (fun e => e.1 ≠ k) }
+  else p
+
+/-- `CheckTx(tx)` from `peer` past the size/pre-check guards. `adm`: capacity, verdict and post-check
+all say "admit"; `rm`: a refused tx is taken out of the cache again. -/
+def kcheck (p : KPool) (tx : Bytes) (peer : Nat) (adm rm : Bool) : KPool :=
+  let r := p.cache.push (key tx)
+  if !r.2 then recordK { p with cache := r.1 } (key tx) peer
+  else if !adm then { p with cache := if rm then r.1.remove (key tx) else r.1 }
+  else recordK { p with cache := r.1, acc := admitTx key p.acc tx } (key tx) peer
+
+/-- one iteration of `Update`'s loop (v0 accounting): cache push / remove / keep, then removal by key -/
+def kcommitV0 (p : KPool) (tx : Bytes) (ok keep : Bool) : KPool :=
+  let cache := if ok then (p.cache.push (key tx)).1 else if !keep then p.cache.remove (key tx) else p.cache
+  { acc := removeV0 key p.acc tx, cache := cache,
+    senders := if key tx ∈ p.acc.index then p.senders.filter (fun e => e.1 ≠ key tx) else p.senders }
+
+def kcommitV1 (p : KPool) (tx : Bytes) (ok keep : Bool) : KPool :=
+  let cache := if ok then (p.cache.push (key tx)).1 else if !keep then p.cache.remove (key tx) else p.cache
+  { acc := removeV1 key p.acc tx, cache := cache,
+    senders := if key tx ∈ p.acc.index then p.senders.filter (fun e => e.1 ≠ key tx) else p.senders }
+
+/-- removal of a pooled entry by element (recheck rejection, eviction, TTL expiry) -/
+def kdrop (p : KPool) (e : Bytes) (rmCache : Bool) : KPool :=
+  if e ∈ p.acc.entries then
+    { acc := removeV1 key p.acc e, cache := if rmCache then p.cache.remove (key e) else p.cache,
+      senders := p.senders.filter (fun x => x.1 ≠ key e) }
+  else p
+
+inductive KOp
+  | check (tx : Bytes) (peer : Nat) (adm rm : Bool)
+  | commit (tx : Bytes) (ok keep : Bool)
+  | drop (e : Bytes) (rmCache : Bool)
+
+def KOp.tx : KOp → Bytes
+  | .check tx _ _ _ => tx
+  | .commit tx _ _ => tx
+  | .drop e _ => e
+
+def kstepV0 (p : KPool) : KOp → KPool
+  | .check tx peer adm rm => kcheck key p tx peer adm rm
+  | .commit tx ok keep => kcommitV0 key p tx ok keep
+  | .drop e rc => kdrop key p e rc
+
+def kstepV1 (p : KPool) : KOp → KPool
+  | .check tx peer adm rm => kcheck key p tx peer adm rm
+  | .commit tx ok keep => kcommitV1 key p tx ok keep
+  | .drop e rc => kdrop key p e rc
+
+def krunV0 (p : KPool) (ops : List KOp) : KPool := ops.foldl (kstepV0 key) p
+def krunV1 (p : KPool) (ops : List KOp) : KPool := ops.foldl (kstepV1 key) p
+
+end Tmv.Mempool.Keyed
